@@ -119,7 +119,21 @@ func (o *Obligation) ok() bool {
 	return o.Result == "unsat"
 }
 
+var sweepMode bool // single solver, no model extraction (zero-annotation sweeps)
+
 func solveOne(o *Obligation, file string, timeout int, twoSolvers bool, stats *solveStats) {
+	if sweepMode && !o.Cover {
+		res, _, sec := runSolver(solvers[0], file, timeout, false)
+		stats.mu.Lock()
+		stats.seconds += sec
+		stats.queries++
+		if res == "unsat" {
+			stats.byBackend[solvers[0].name]++
+		}
+		stats.mu.Unlock()
+		o.Result, o.Solver, o.Seconds = res, solvers[0].name, sec
+		return
+	}
 	want := "unsat"
 	if o.Cover {
 		want = "sat"
